@@ -122,7 +122,10 @@ func (r *renderer) Text(txt []byte, inURL, isSet bool) error {
 
 	if inURL {
 		if isSet && bytes.ContainsRune(txt, ',') {
-			r.query = false
+			// A new URL starts after the last comma.
+			r.query = bytes.ContainsAny(txt[bytes.LastIndexByte(txt, ',')+1:], "?#")
+			r.addAmpersand = false
+			r.removeQuestionMark = false
 		} else if r.query {
 			if r.removeQuestionMark && txt[0] == '?' {
 				txt = txt[1:]
